@@ -307,6 +307,31 @@ func runC06(c *Ctx) {
 		total, cont, mtype := cells["readBytes"], cells["continuation"], cells["messageType"]
 		bCell := cells["b"]
 		if total == nil || cont == nil || mtype == nil || bCell == nil {
+			// renamed: fall back on the types of the captured variables (one []byte, one int, one bool, one message type)
+			total, cont, mtype, bCell = nil, nil, nil, nil
+			for _, fv := range cf.FreeVars {
+				pt, ok := fv.Type().(*types.Pointer)
+				if !ok {
+					continue
+				}
+				switch t := pt.Elem().Underlying().(type) {
+				case *types.Slice:
+					if isByteSlice(pt.Elem()) && bCell == nil {
+						bCell = fv
+					}
+				case *types.Basic:
+					switch {
+					case t.Kind() == types.Int && total == nil:
+						total = fv
+					case t.Kind() == types.Bool && cont == nil:
+						cont = fv
+					case t.Kind() == types.Uint8 && mtype == nil:
+						mtype = fv
+					}
+				}
+			}
+		}
+		if total == nil || cont == nil || mtype == nil || bCell == nil {
 			infra("anchor: captured reassembly variables of asyncNextMessage not found")
 		}
 		isLoad := func(v ssa.Value, fv *ssa.FreeVar) bool {
